@@ -13,16 +13,20 @@
 #define VERIF_C08_INTERVAL_WIDEN_H
 #include "../C12/interval.h"
 #define ST_N 5
-extern T_u G_stop[ST_N]; extern uint32_t G_nstop;
-#define STV(k) x_num(G_stop[k])
+#ifndef STOPS
+extern T_u G_stop[ST_N]; extern uint32_t G_nstop;   /* harness-owned stop points */
+# define STOPS G_stop
+# define NSTOP G_nstop
+#endif
+#define STV(k) x_num(STOPS[k])
 SPEC int stops_sorted(void) {
-  return (G_nstop < 2 || STV(0) <= STV(1)) && (G_nstop < 3 || STV(1) <= STV(2)) && (G_nstop < 4 || STV(2) <= STV(3)) && (G_nstop < 5 || STV(3) <= STV(4));
+  return (NSTOP < 2 || STV(0) <= STV(1)) && (NSTOP < 3 || STV(1) <= STV(2)) && (NSTOP < 4 || STV(2) <= STV(3)) && (NSTOP < 5 || STV(3) <= STV(4));
 }
 SPEC int n_above(ex_t v) {
-  return (G_nstop > 0 && STV(0) > v) + (G_nstop > 1 && STV(1) > v) + (G_nstop > 2 && STV(2) > v) + (G_nstop > 3 && STV(3) > v) + (G_nstop > 4 && STV(4) > v);
+  return (NSTOP > 0 && STV(0) > v) + (NSTOP > 1 && STV(1) > v) + (NSTOP > 2 && STV(2) > v) + (NSTOP > 3 && STV(3) > v) + (NSTOP > 4 && STV(4) > v);
 }
 SPEC int n_below(ex_t v) {
-  return (G_nstop > 0 && STV(0) < v) + (G_nstop > 1 && STV(1) < v) + (G_nstop > 2 && STV(2) < v) + (G_nstop > 3 && STV(3) < v) + (G_nstop > 4 && STV(4) < v);
+  return (NSTOP > 0 && STV(0) < v) + (NSTOP > 1 && STV(1) < v) + (NSTOP > 2 && STV(2) < v) + (NSTOP > 3 && STV(3) < v) + (NSTOP > 4 && STV(4) < v);
 }
 SPEC int cert_u(const ITV_T *x) { return hi_inf(x) ? 0 : 2 * (1 + n_above(hi(x))) - (hi_open(x) ? 0 : 1); }
 SPEC int cert_l(const ITV_T *x) { return lo_inf(x) ? 0 : 2 * (1 + n_below(lo(x))) - (lo_open(x) ? 0 : 1); }
@@ -34,7 +38,7 @@ SPEC int cert(const ITV_T *x) { return cert_u(x) + cert_l(x); }
   POST(certificate_never_grows, cert_u(X) <= cert_u(Y) && cert_l(X) <= cert_l(Y)) \
   POST(non_stationary_step_decreases_certificate, set_eq(X, Y) || cert(X) < cert(Y))
 
-#if defined(VERIF_CBMC)
+#if defined(VERIF_CBMC) && defined(FN_cc76)
 void FN_cc76(ITV_T *x, const ITV_T *y, const T_u *first, const T_u *last)
   PRE(wf_x, WF(x)) PRE(wf_y, WF(y)) PRE(y_nonempty, !is_empty_set(y)) PRE(x_contains_y, set_contains(x, y))
   PRE(stop_points, first == G_stop && last == G_stop + G_nstop && G_nstop <= ST_N && stops_sorted())
